@@ -4,6 +4,7 @@ import Mp4ff.Driver.C07
 import Mp4ff.Driver.C08
 import Mp4ff.Driver.C09
 import Mp4ff.Driver.C10
+import Mp4ff.Driver.C11
 import Mp4ff.Driver.C12
 import Mp4ff.Driver.C13
 import Mp4ff.Driver.C14
@@ -15,7 +16,7 @@ import Mp4ff.Driver.C19
 open Mp4ff.Driver
 
 def dispatchers : List (String → List String → Option String) :=
-  [C01.dispatch, C05.dispatch, C07.dispatch, C08.dispatch, C09.dispatch, C10.dispatch, C12.dispatch, C13.dispatch, C14.dispatch, C15.dispatch, C17.dispatch, C18.dispatch, C19.dispatch]
+  [C01.dispatch, C05.dispatch, C07.dispatch, C08.dispatch, C09.dispatch, C10.dispatch, C11.dispatch, C12.dispatch, C13.dispatch, C14.dispatch, C15.dispatch, C17.dispatch, C18.dispatch, C19.dispatch]
 
 def respond (line : String) : String :=
   match splitWs line with
